@@ -73,6 +73,11 @@ func runC10(c *Ctx) {
 			c.NoteFunc(FuncName(fn))
 			for _, s := range ge.Sinks(fn, nil, nil, nil, 0, map[*ssa.Function]int{}) {
 				ok, why := s.Discharged()
+				if !ok {
+					if ok2, why2 := ge.LinearDischarge(s); ok2 {
+						ok, why = true, why2
+					}
+				}
 				if s.Kind == "checked-arith" {
 					if i := strings.LastIndex(s.Expr, " ⊕ "); i >= 0 {
 						s.Expr = strings.SplitN(s.Expr, " ", 2)[0] + " … ⊕ " + s.Expr[i+len(" ⊕ "):]
